@@ -56,13 +56,84 @@ def register(ix):
     ix.add_class(ClassSpec("Sequence", SQ, fields={"_data_seq": "Lst[Obj]"}))
     ix.add(Contract(
         SQ, "Sequence.run", props=["C01", "C02"],
-        params={"self": "Self[Sequence]", "flow": "Iter[V]"}, result="Iter[V]",
-        requires=["pulled(flow) == 0"],
-        loops={0: LoopSpec(invariant=[
-            "pulled(flow) == 0",
-            "same(content(flow), seq_run(self._data_seq, old(content(flow)), _i))",
-            # laziness (C02): building the chain consumes nothing from the input
-            "old(flow) is flow or pulled(old(flow)) == 0"])},
-        ensures=["pulled(result) == 0",
-                 "same(content(result), seq_run(self._data_seq, content(flow), len(self._data_seq)))",
-                 "pulled(flow) == 0"]))
+        cases=[
+            Contract(SQ, "Sequence.run", name="Sequence.run[iterator flow]",
+                     params={"self": "Self[Sequence]", "flow": "Iter[V]"}, result="Iter[V]",
+                     requires=["pulled(flow) == 0"],
+                     loops={0: LoopSpec(invariant=[
+                         "pulled(flow) == 0",
+                         "same(content(flow), seq_run(self._data_seq, old(content(flow)), _i))",
+                         # laziness (C02): building the chain consumes nothing from the input
+                         "old(flow) is flow or pulled(old(flow)) == 0"])},
+                     ensures=["pulled(result) == 0",
+                              "same(content(result), seq_run(self._data_seq, content(flow), len(self._data_seq)))",
+                              "pulled(flow) == 0"]),
+            Contract(SQ, "Sequence.run", name="Sequence.run[list flow]",
+                     params={"self": "Self[Sequence]", "flow": "Lst[V]"}, result="Iter[V]",
+                     loops={0: LoopSpec(invariant=[
+                         "pulled(flow) == 0",
+                         "same(content(flow), seq_run(self._data_seq, old(flow), _i))"])},
+                     ensures=["pulled(result) == 0",
+                              "same(content(result), seq_run(self._data_seq, flow, len(self._data_seq)))"]),
+        ]))
+    # ------------------------------------------------------------------ Source.__call__
+    ix.add_class(ClassSpec("Source_with_tail", SO, fields={"_first": "Obj", "_tail": "Inst[Sequence]"}, alias_of="Source"))
+    ix.add_class(ClassSpec("Source_no_tail", SO, fields={"_first": "Obj", "_tail": "Tuple[]"}, alias_of="Source"))
+    ix.add_class(ClassSpec("Source_iterable", SO, fields={"_first": "Lst[V]", "_tail": "Inst[Sequence]"}, alias_of="Source"))
+    ix.add(Contract(
+        SO, "Source.__call__", props=["C01", "C02"],
+        cases=[
+            Contract(SO, "Source.__call__", name="Source.__call__[callable first, tail]",
+                     params={"self": "Self[Source_with_tail]"}, result="Iter[V]",
+                     requires=["callable(self._first)"],
+                     ensures=["pulled(result) == 0",
+                              "same(content(result), seq_run(self._tail._data_seq, el_source(self._first), len(self._tail._data_seq)))"]),
+            Contract(SO, "Source.__call__", name="Source.__call__[callable first, no tail]",
+                     params={"self": "Self[Source_no_tail]"}, result="Iter[V]",
+                     requires=["callable(self._first)"],
+                     ensures=["pulled(result) == 0", "same(content(result), el_source(self._first))"]),
+            Contract(SO, "Source.__call__", name="Source.__call__[iterable first, tail]",
+                     params={"self": "Self[Source_iterable]"}, result="Iter[V]",
+                     ensures=["pulled(result) == 0",
+                              "same(content(result), seq_run(self._tail._data_seq, self._first, len(self._tail._data_seq)))"]),
+        ]))
+    # ------------------------------------------------------------------ construction
+    LS = "lena/core/lena_sequence.py"
+    ix.add_class(ClassSpec("LenaSequence", LS, fields={}))
+    ix.add_class(ClassSpec("Sequence0", SQ, fields={}, alias_of="Sequence", bases=["LenaSequence"]))
+    ix.classes["Sequence"].bases = ["LenaSequence"]
+    # assumed here, verified under C13: threads the static context; may store / raise LenaKeyError; touches no data element
+    ix.add(Contract(LS, "LenaSequence._set_context", props=[], trusted=True,
+                    params={"self": "Self[LenaSequence]", "context": "Any"}, raises={"LenaKeyError": "?"},
+                    modifies=["self._static_context", "self._exc"],
+                    notes="assumed at the call in LenaSequence.__init__ (static context is the subject of C13)"))
+    HAS_RUN = "(has_attr(args[{i}], 'run') and callable_m(args[{i}], 'run'))"
+    CONV = "(callable(args[{i}]) or (has_attr(args[{i}], 'fill') and has_attr(args[{i}], 'compute') and " \
+           "callable_m(args[{i}], 'fill') and callable_m(args[{i}], 'compute')))"
+
+    def seq_init(n):
+        nodata = ["not has_attr(args[%d], '_has_no_data')" % i for i in range(n)]
+        ens = ["len(self._data_seq) == %d" % n, "len(self._seq) == %d" % n]
+        for i in range(n):
+            hr = HAS_RUN.format(i=i)
+            ens += ["self._seq[%d] is args[%d]" % (i, i),
+                    "%s implies self._data_seq[%d] is args[%d]" % (hr, i, i),
+                    "not %s implies is_instance_of(self._data_seq[%d], 'Run') and self._data_seq[%d]._el is args[%d]" % (hr, i, i, i),
+                    "not %s and callable(args[%d]) implies self._data_seq[%d].run is class_method(self._data_seq[%d], '_call_run')" % (hr, i, i, i),
+                    "not %s and not callable(args[%d]) implies self._data_seq[%d].run is class_method(self._data_seq[%d], '_fc_run')" % (hr, i, i, i)]
+        bad = " or ".join("not (%s or %s)" % (HAS_RUN.format(i=i), CONV.format(i=i)) for i in range(n)) or "False"
+        return Contract(SQ, "Sequence.__init__", name="Sequence.__init__[%d data args]" % n,
+                        params={"self": "Self[Sequence0]", "args": "Tuple[%s]" % ",".join(["Obj"] * n)},
+                        requires=nodata, raises={"LenaTypeError": bad}, ensures=ens,
+                        modifies=["self._name", "self._seq", "self._data_seq", "self._static_context", "self._exc"],
+                        notes="argument lists of length %d (the per-argument loop is unrolled; every element kind)" % n)
+    ix.add(Contract(LS, "LenaSequence.__init__", props=[], inline=True,
+                    params={"self": "Self[LenaSequence]", "args": "Any"}))
+    ix.add(Contract(SQ, "Sequence.__init__", props=["C01"], cases=[seq_init(0), seq_init(1), seq_init(2),
+           Contract(SQ, "Sequence.__init__", name="Sequence.__init__[no-data element dropped]",
+                    params={"self": "Self[Sequence0]", "args": "Tuple[Obj,Obj]"},
+                    requires=["has_attr(args[0], '_has_no_data')", "not has_attr(args[1], '_has_no_data')",
+                              HAS_RUN.format(i=1)],
+                    ensures=["len(self._seq) == 2", "len(self._data_seq) == 1", "self._data_seq[0] is args[1]"],
+                    modifies=["self._name", "self._seq", "self._data_seq", "self._static_context", "self._exc"])]))
+
